@@ -40,7 +40,17 @@ def jobs_rpypi(tier):
     base = dict(panic_is_violation=True, unwind_is_violation=True, unwind=60, timeout_s=600 if tier == "quick" else 3000,
                 max_witnesses=3, witness_every=200)
     nm = 4 if tier == "quick" else 6
-    return [dict(base, harness="VerifC04Marker", params={"n": n}) for n in range(0, nm + 1)]
+    jobs = [dict(base, harness="VerifC04Marker", params={"n": n}) for n in range(0, nm + 1)]
+    # well-formed markers: every variable x operator x literal kind, literal on either side
+    for v in range(9):
+        for o in range(9):
+            for l in ([1, 3, 4, 8, 9] if tier == "quick" else range(12)):
+                for rev in (0, 1):
+                    if rev and (o == 6 or (tier == "quick" and (v + o + l) % 2)):
+                        continue
+                    jobs.append(dict(base, harness="VerifC04MarkerTemplate",
+                                     params={"x0": 0, "rev0": rev, "v0": v, "o0": o, "l0": l, "w": (v + o) % 3, "q": l % 2}))
+    return jobs
 
 
 BASE = dict(panic_is_violation=True, unwind_is_violation=True, unwind=60, max_witnesses=3, witness_every=200)
